@@ -17,7 +17,7 @@ sys.path.insert(0, os.path.dirname(HERE))
 from conc import common  # noqa: E402  (sets sys.path for the tree under test)
 
 MODULES = {
-    "C14": ["checks_c14"], "C18": ["checks_c18"],
+    "C14": ["checks_c14"], "C18": ["checks_c18"], "C01": ["checks_c01"],
 }
 
 
